@@ -65,14 +65,14 @@ CHECKS.update({
                     "None; find returns a value under exactly that tag. A second acceptance harness covers headers with up to 11 (17) pairs, a third every header of exactly 10 (19) pairs. "
                     "Engine C (native, bounded, not proof) runs the same triple on headers of up to 72 (300) pairs.",
             "note": "BOUNDED: all byte strings <= 20 bytes quick / 24 thorough for the accessor harnesses; acceptance alone on all strings <= 88 / 136 bytes"},
-    "C15": {"engine": "verus+kani", "design_ref": "DESIGN.md 10.8",
+    "C15": {"engine": "verus+kani+native", "design_ref": "DESIGN.md 10.8",
             "technique": "Verus contracts on the real generic SlidingDeque<Container> against a trait contract (unbounded); Kani checks the trait contract on Vec/SmallVec and cross-checks each operation",
             "text": "Verus proves every operation (push_back, pop_front, pop_back, advance for every usize count, clear, slide, maybe_slide, front/back, "
                     "front_mut/back_mut, Deref/DerefMut bodies, From) against the reference deque `view` and the representation invariant (= the "
                     "code's check_rep: consumed <= len/2; the debug assertions are proof obligations), for ANY container meeting the "
                     "PushTruncateContainer contract, in both debug and release configurations; Vec's impl of the contract is proved from vstd. "
                     "Kani checks SmallVec's/Vec's impl of the contract and re-checks each operation on the real containers (bounded).",
-            "note": "assumed: <[T]>::copy_within is memmove; SmallVec meets the container contract (bounded Kani check only); Deref trait methods are contract stubs whose bodies are verified re-homed (N12)"},
+            "note": "assumed: <[T]>::copy_within is memmove; SmallVec meets the container contract (bounded: Kani on <= 3 elements, plus Engine C running the deque on real SmallVec backings through inline->heap transitions, up to 40 / 120 elements); Deref trait methods are contract stubs whose bodies are verified re-homed (N12)"},
     "C16": {"engine": "verus+kani+native", "design_ref": "DESIGN.md 5 (C16), 10.3, 10.4 (F6), 10.12",
             "technique": "Verus contracts on the real generic SortedDeque against the reference ordered map `live` (unbounded, against trait contracts of comparator/marker and the SlidingDeque contracts); Kani bounded inductive-per-operation harnesses, both item conventions, incl. the assumed cleanup_front contract; native bounded cross-check of whole operation sequences on more keys",
             "text": "Verus proves new, push_back_or_panic, clear, is_empty, first, last, pop_first, pop_last, find, find_index, remove, cleanup_back, "
